@@ -2,8 +2,8 @@ package mcprops
 
 import (
 	"fmt"
-	"strconv"
 	"sort"
+	"strconv"
 	"strings"
 	"time"
 
@@ -18,7 +18,7 @@ import (
 func init() {
 	Props["C18"] = &harness.Prop{
 		ID:             "C18",
-		Rule:           "sequential: explicit-state breadth-first search over the real queue for capacities 1..8 with operations {Add(next id), GetMessages}; states canonicalised by subtracting the smallest key; every transition compared with a slice model; plus runs of 7x10^4 additions per capacity (past every 16-bit counter) with a snapshot after every addition, and runs across the 2^7, 2^8, 2^15, 2^16, 2^31 and 2^32th addition (the exported index is set to what that many additions leave, on 64-bit builds). concurrent: capacities 1 and 2, thread sets {adder(2 adds), adder(1 add), reader(2 snapshots)} and {adder(3 adds), reader, reader}, scheduling points at every lock operation and at every function and loop entry of the queue package, all schedules with <=2 (quick) / <=3 (thorough) preemptions; every recorded call/return history is checked for linearizability against the slice model by exhaustive search over linearisation orders. Non-trivial = distinct schedule trace / distinct canonical state",
+		Rule:           "sequential: explicit-state breadth-first search over the real queue for capacities 1..8 with operations {Add(next id), GetMessages}; states canonicalised by subtracting the smallest key; every transition compared with a slice model; plus runs of 7x10^4 additions per capacity (past every 16-bit counter) with a snapshot after every addition, and runs across the 2^7, 2^8, 2^15, 2^16, 2^31 and 2^32th addition (the exported index is set to what that many additions leave, on 64-bit builds). and runs of 3N+5 additions for capacities 9..1000 (15 values round powers of two and the proxy's 20). concurrent: capacities 1 and 2, thread sets {adder(2 adds), adder(1 add), reader(2 snapshots)} and {adder(3 adds), reader, reader}, scheduling points at every lock operation and at every function and loop entry of the queue package, all schedules with <=2 (quick) / <=3 (thorough) preemptions; every recorded call/return history is checked for linearizability against the slice model by exhaustive search over linearisation orders. Non-trivial = distinct schedule trace / distinct canonical state",
 		Assumptions:    []string{"canonicalisation: Add and GetMessages depend only on the order and number of the keys and on NextIndex being above every key, which is asserted in every state", "interleavings inside the unsynchronised code are explored at function/loop-entry granularity (yield points inserted by the instrumenter); the memory-model clause 'no data race' is outside what the cooperative scheduler observes and is only touched by the auxiliary free-running -race pass", "RWMutex writer preference is not modelled (superset of interleavings)"},
 		Pre:            c18Sequential,
 		Scenarios:      c18Scenarios,
@@ -140,6 +140,24 @@ func c18Sequential(r *ev.Run) {
 			}
 			if len(q.Items) > n {
 				fail("holds-more-than-capacity", n, fmt.Sprintf("%d additions", id), n, len(q.Items))
+				break
+			}
+		}
+	}
+	// capacities beyond the explicit-state search (the proxy uses 20): long runs only
+	for _, n := range []int{9, 10, 15, 16, 17, 20, 31, 32, 33, 64, 100, 255, 256, 257, 1000} {
+		q := cq.NewCircularQueue(n)
+		var model []int
+		for id := 1; id <= 3*n+5; id++ {
+			q.Add(msg(id))
+			model = modelAdd(model, n, id)
+			trans += 2
+			if id%7 != 0 && id < 3*n {
+				continue // a snapshot costs O(n log n): every seventh addition and the last few
+			}
+			got := ids(q.GetMessages())
+			if fmt.Sprint(got) != fmt.Sprint(model) {
+				fail("snapshot-differs-from-last-N", n, fmt.Sprintf("%d additions", id), len(model), len(got))
 				break
 			}
 		}
